@@ -355,6 +355,8 @@ val utf8_encode : n list -> n list
 
 val other_ranges : (n * n) list
 
+val whitespace_ranges : (n * n) list
+
 val hexd : n -> n
 
 val printable : n -> bool
@@ -463,6 +465,81 @@ val captured : bool -> wr list -> n list * n list
 val recorded :
   (n list -> n list) -> bool -> bool option -> bool option -> wr list -> n
   list * n list
+
+val kind_names : (n list * nat) list
+
+val is_ws : n -> bool
+
+val is_quant : n -> bool
+
+val lookup_kind : n list -> (n list * nat) list -> nat option
+
+val kind_ok : n list -> bool
+
+val span_noparen : n list -> n list * n list
+
+val split_mod : n list -> ((n list * n list) * n list) option
+
+val eQUAL : n list
+
+val extract : n list -> (n list * n list) * n list
+
+type rule =
+| REqual of n list
+| RNoEol of n list
+| REscaped of n list * n list
+| RGlob of n list
+| RRegex of n list
+
+type expectation = { e_rule : rule; e_opt : bool; e_mul : bool }
+
+val ends_with_rev : n list -> n list -> bool
+
+val ends_with : n list -> n list -> bool
+
+val strip_suffix : n list -> n list -> n list option
+
+val s_NOEOL : n list
+
+val s_ESCAPED : n list
+
+val s_ESCAPED_Q : n list
+
+val s_ESC : n list
+
+val s_ESC_Q : n list
+
+val expression_as_escaped : n list -> n list option
+
+val make :
+  (n list -> n list) -> (n list -> bool) -> (n list -> n list) -> nat -> n
+  list -> rule option
+
+type parsed =
+| POk of expectation
+| PErr
+
+val parse :
+  (n list -> n list) -> (n list -> bool) -> (n list -> n list) -> n list ->
+  parsed
+
+val quant_text : bool -> bool -> n list
+
+val paren : n list -> n list -> n list
+
+val k_ESCAPED : n list
+
+val k_NOEOL : n list
+
+val k_GLOB : n list
+
+val k_REGEX : n list
+
+val last_is_rparen : n list -> bool
+
+val render_exp : mode -> expectation -> n list
+
+val matches_content : rule -> n list -> bool option
 
 val make_exp : bool -> bool -> (nat -> bool) -> nat exp
 
